@@ -572,10 +572,10 @@ def execute(plan, rec):
             out = call(d.__setitem__, ev[2], bool(ev[3]))
         elif kind == 'd_getitem':
             out = call(d.__getitem__, (ev[2], ev[3]))
-        elif kind == 'd_add_o':
-            out = call(d.add_object, ev[2], list(ev[3]))
+        elif kind == 'd_add_o':     # only non-default arguments are passed, so that the defaults are exercised
+            out = call(d.add_object, ev[2], list(ev[3])) if ev[3] else call(d.add_object, ev[2])
         elif kind == 'd_add_p':
-            out = call(d.add_property, ev[2], list(ev[3]))
+            out = call(d.add_property, ev[2], list(ev[3])) if ev[3] else call(d.add_property, ev[2])
         elif kind == 'd_set_o':
             out = call(d.set_object, ev[2], list(ev[3]))
         elif kind == 'd_set_p':
@@ -612,7 +612,7 @@ def execute(plan, rec):
                 out = call(_iop)
             else:
                 meth = d.union_update if kind == 'd_union_upd' else d.intersection_update
-                out = call(meth, t, bool(ev[3]))
+                out = call(meth, t, True) if ev[3] else call(meth, t)
         elif kind == 'd_copy':
             out = call(d.copy)
             dsts = (ev[2],)
@@ -640,13 +640,23 @@ def execute(plan, rec):
             if ev[5] == 'op':
                 out = call((lambda d=d, t=t: d | t) if kind == 'd_union' else (lambda d=d, t=t: d & t))
             else:
-                out = call(d.union if kind == 'd_union' else d.intersection, t, bool(ev[3]))
+                meth = d.union if kind == 'd_union' else d.intersection
+                out = call(meth, t, ignore_conflicts=True) if ev[3] else call(meth, t)
             dsts = (ev[4],)
         elif kind == 'd_take':
             seq = tuple if index % 3 == 0 else list      # any Sequence of names
             objs = None if ev[2] is None else seq(ev[2])
             prps = None if ev[3] is None else seq(ev[3])
-            out = call(d.take, objs, prps, bool(ev[4]))
+            kw = {}
+            if objs is not None:
+                kw['objects'] = objs
+            if prps is not None:
+                kw['properties'] = prps
+            if ev[4]:
+                kw['reorder'] = True
+            out = call(d.take, **kw) if index % 2 else (
+                call(d.take, objs, prps, True) if ev[4] else (call(d.take, objs, prps) if prps is not None else
+                                                              (call(d.take, objs) if objs is not None else call(d.take))))
             dsts = (ev[5],)
         else:  # pragma: no cover
             raise core.HarnessError(f'unknown event {ev!r}')
